@@ -300,6 +300,8 @@ def run_case(case):
             first = {"same": second, "nothing-disabled": base + ["--datetime"], "datetime-only": base + ["--datetime"],
                      "other-disabled": base + ["--disable-str-serializable-types"] + [n for n in NAMES if n not in gone][:1]}[case["first"]]
             r = clireuse.run(first, second, td, again=case["again"])
+        if getattr(r, "timed_out", False):
+            return {"status": "inconclusive", "why": "case timeout", "witnesses": [], "counters": {}}
         if r.returncode != 0:
             W("cli-reuse-run-fails", f"Cli object: parse_args({first}); run(); parse_args({second}); run(){'; run()' if case['again'] else ''} failed: "
                                      f"{r.stderr.strip().splitlines()[-1][:200] if r.stderr.strip() else r.returncode}")
